@@ -96,9 +96,20 @@ def run_unit(unit, repo=None, tag=''):
     return run_verus(res, out_rs, lines, linemap, t0)
 
 
-def run_verus(res, out_rs, lines, linemap, t0):
-    cmd = ['verus', out_rs, '--multiple-errors', '20', '--time-expanded', '--output-json']
+def run_verus(res, out_rs, lines, linemap, t0, rlimit=None):
+    cmd = ['verus', out_rs, '--multiple-errors', '20', '--time-expanded', '--output-json'] + (['--rlimit', str(rlimit)] if rlimit else [])
     p = subprocess.run(cmd, capture_output=True, text=True)
+    if rlimit is None and 'esource limit' in p.stderr:
+        # A solver resource-limit hit is not a verdict.  Z3's search is sensitive to incidental
+        # naming (the per-process file name is the crate name), so the same text occasionally needs
+        # more than the default budget: re-run ONCE with a larger budget.  A larger budget can only
+        # turn 'unknown' into 'proved' or into a genuine counter-proof, never hide a failure.
+        base_errs = [l for l in p.stderr.split('\n') if l.startswith('error') and not l.startswith('error: aborting')]
+        if base_errs and all('esource limit' in l for l in base_errs):
+            res2 = run_verus(dict(res, functions={}, errors=[]), out_rs, lines, linemap, t0, rlimit=100)
+            res2['rlimit_retry'] = True
+            res.update(res2)
+            return res
     res['cmd'] = ' '.join(cmd)
     res['wall_s'] = round(time.time() - t0, 2)
     try:
